@@ -616,70 +616,77 @@ def upconverter_ops(rng, aw=32, origin=0):
         ("r", 4, 2),
     ]]
 
-# Change 1: BURST_READ issues its commands from the single down-counter cmd_ready_count
-# (cmd_ready_seen register removed, only accepted commands are counted).
+# Change 3: the address is latched / incremented as seen on the bus and the base address is
+# subtracted in a single shared place (single access command, command FIFO input, burst read
+# command) instead of once on the single access path and once in front of the latch.
 #
 # The change must not alter a single output of the bridge: every scenario is run on the modified
-# bridge and on the frozen reference with identical stimulus and compared cycle by cycle; the
-# modified bridge is also checked against the golden memory model (property C11).
+# bridge and on the frozen reference with identical stimulus and compared cycle by cycle (native
+# command addresses included); the modified bridge is also checked against the golden memory model
+# (property C11), which computes the expected native addresses independently (modulo the size of
+# the native address space).
 
 def job(args):
-    name, cfg, st, seed, ops = args
+    name, cfg, st, seed, ops, increment = args
     dut = Run(LiteDRAMAvalonMM2Native, cfg, st, seed, ops, trace=True).run()
     ref = Run(RefAvalonMM2Native,      cfg, st, seed, ops, trace=True).run()
-    ok  = check_golden(dut)
-    ok &= check_golden(ref, what="ref")
+    ok  = check_golden(dut, increment=increment)
+    ok &= check_golden(ref, increment=increment, what="ref")
     ok &= check_lockstep(dut, ref)
-    n_r = sum(1 for op in ops if op[0] == "r" and op[2] > 1)
-    return ok, "{:<18} seed={} {} accesses ({} read bursts), {} cycles".format(name, seed, len(ops), n_r, dut.cycle)
+    return ok, "{:<24} seed={} {} accesses, {} native commands, {} cycles".format(
+        name, seed, len(ops), len(dut.cmds), dut.cycle)
 
 def main():
     jobs = []
-    profiles = {
-        "default"     : Stalls(),
-        "cmd-always"  : Stalls(cmd_ready=100),                 # ready high also without valid.
-        "cmd-rare"    : Stalls(cmd_ready=20),
-        "fast-read"   : Stalls(rd_lat=(1, 1), rd_gap=0),       # data of beat k back while commands are still issued.
-        "slow-read"   : Stalls(rd_lat=(5, 12), rd_gap=60),
-        "ideal"       : Stalls(**IDEAL),
-    }
-    # Random traffic, read heavy, 1:1 bridge.
-    for pname, st in profiles.items():
-        for seed in range(5):
-            cfg = Cfg()
-            ops = gen_ops(cfg, random.Random(1000 + seed), 50, max_burst=24, kinds="wrrr")
-            jobs.append(("1:1 " + pname, cfg, st, seed, ops))
-    # Other configurations.
+    # Address widths / base addresses / traffic windows (origin in Avalon words), 1:1 bridge.
+    #   name                  : (cfg, origin)
     cfgs = {
-        "fifo-depth-2"   : (Cfg(mbl=2), 1),
-        "fifo-depth-4"   : (Cfg(mbl=4), 1),
-        "base"           : (Cfg(base=0x10000000), 1),
-        "narrow-port"    : (Cfg(base=0x10000000, avl_adr=30, port_adr=24), 1),
-        "narrow-avalon"  : (Cfg(base=0x4000, avl_adr=20, port_adr=30), 1),
-        "down 32->16"    : (Cfg(aw=32, pw=16, port_adr=32), 1),
-        "down 64->32"    : (Cfg(aw=64, pw=32, base=0x10000000), 1),
-        "down 32->8"     : (Cfg(aw=32, pw=8), 1),
+        "base-0"              : (Cfg(), None),
+        "base-256M"           : (Cfg(base=0x10000000), None),
+        "base-odd"            : (Cfg(base=0x00012344), None),
+        "narrow-avalon"       : (Cfg(base=0x4000, avl_adr=20, port_adr=30), None),
+        "narrow-port"         : (Cfg(base=0x10000000, avl_adr=30, port_adr=24), None),
+        "narrow-port-high"    : (Cfg(base=0x10000000, avl_adr=30, port_adr=12), 0x3ffff000), # Address bits above the port.
+        "base-truncated"      : (Cfg(base=0x12345678, avl_adr=30, port_adr=10), None),       # Base wider than the port.
+        "below-base"          : (Cfg(base=0x00010000, avl_adr=20, port_adr=20), 0x4000 - 30),# Window crosses the base: offset underflow.
+        "below-base-narrow"   : (Cfg(base=0x00010000, avl_adr=16, port_adr=24), 0),          # Avalon narrower than the port, below base.
+        "top-of-space"        : (Cfg(base=0x00000100, avl_adr=12, port_adr=12), 4096 - 40),  # Bursts wrap at the top of the bus space.
+        "port-wrap"           : (Cfg(base=0x00000100, avl_adr=14, port_adr=10), 1024 + 64 - 20), # Bursts wrap in the native space.
     }
-    for cname, (cfg, align) in cfgs.items():
-        for seed in range(3):
-            ops = gen_ops(cfg, random.Random(2000 + seed), 30, max_burst=12, align=align, kinds="wrrr")
-            jobs.append((cname, cfg, Stalls(), seed, ops))
-    # Every read burst length (after filling the memory with a write burst).
-    for seed, lens in enumerate([range(2, 12), range(12, 20), [20, 33, 64], [255, 2, 128]]):
-        cfg = Cfg(span=300)
-        rng = random.Random(3000 + seed)
-        ops = [("w", 0, [(rng.getrandbits(32), 15) for _ in range(40)])]
-        for n in lens:
-            ops.append(("r", rng.randrange(30), n))
-            if rng.randrange(2):
-                ops.append(("r", rng.randrange(30), 1))
-        jobs.append(("read-lengths", cfg, Stalls(idle=10), seed, ops))
-        jobs.append(("read-lengths cmd100", cfg, Stalls(idle=10, cmd_ready=100, rd_lat=(1, 2), rd_gap=10), seed, ops))
-    # Up-converter (ideal memory timing).
-    for seed in range(2):
-        cfg = Cfg(aw=32, pw=64)
-        jobs.append(("up 32->64", cfg, Stalls(**dict(IDEAL, idle=30*seed, gap=30*seed)), seed,
-            upconverter_ops(random.Random(seed))))
+    for cname, (cfg, origin) in cfgs.items():
+        for seed in range(4):
+            ops = gen_ops(cfg, random.Random(1000 + seed), 40, max_burst=20, origin=origin)
+            st  = [Stalls(), Stalls(cmd_ready=30), Stalls(idle=0, gap=0), Stalls(**IDEAL)][seed]
+            jobs.append((cname, cfg, st, seed, ops, 1))
+    # FIFO depth (addresses go through the command FIFO).
+    for mbl in [2, 4]:
+        for seed in range(2):
+            cfg = Cfg(base=0x2000, mbl=mbl)
+            ops = gen_ops(cfg, random.Random(1500 + seed), 40, max_burst=3*mbl, kinds="wwr")
+            jobs.append(("fifo-depth-{}".format(mbl), cfg, Stalls(idle=10, gap=10), seed, ops, 1))
+    # burst_increment.
+    for inc in [2, 4]:
+        for seed in range(2):
+            cfg = Cfg(base=0x8000, kwargs=dict(burst_increment=inc), span=40)
+            ops = gen_ops(cfg, random.Random(2000 + seed), 30, max_burst=12)
+            jobs.append(("increment-{}".format(inc), cfg, Stalls(), seed, ops, inc))
+    # Down-converters (the bridge then works on a narrower internal address).
+    dcfgs = {
+        "down 32->16"         : (Cfg(aw=32, pw=16, port_adr=32), None),
+        "down 32->16 base"    : (Cfg(aw=32, pw=16, port_adr=24, base=0x10000000), None),
+        "down 64->32 base"    : (Cfg(aw=64, pw=32, base=0x10000000), None),
+        "down 32->8 base"     : (Cfg(aw=32, pw=8, base=0x00400000), None),
+        "down 32->16 below"   : (Cfg(aw=32, pw=16, avl_adr=20, port_adr=21, base=0x00010000), 0x4000 - 20),
+    }
+    for cname, (cfg, origin) in dcfgs.items():
+        for seed in range(2):
+            ops = gen_ops(cfg, random.Random(2500 + seed), 24, max_burst=10, origin=origin)
+            jobs.append((cname, cfg, Stalls(), seed, ops, 1))
+    # Up-converters with a base address (ideal memory timing).
+    for seed, (pw, base) in enumerate([(64, 0), (64, 0x10000000), (64, 0x00000400)]):
+        cfg = Cfg(aw=32, pw=pw, base=base)
+        jobs.append(("up 32->{} base=0x{:x}".format(pw, base), cfg, Stalls(**dict(IDEAL, idle=30*(seed % 2), gap=30*(seed % 2))), seed,
+            upconverter_ops(random.Random(seed), origin=base//4), 1))
     ok = run_jobs(job, jobs)
     print("PASS" if ok else "FAIL")
     return 0 if ok else 1
